@@ -657,9 +657,12 @@ theorem exec_NS {c : Cfg} (hg : good c = true) {s s' : State} {o : Op} {w : Nat}
     · cases h; exact hn
   | transfer f t v x =>
     simp only [State.exec] at h
+    rw [transferTx_eq hg] at h
     exact transferOp_NS hg hi hn h
   | transferFrom sp f t v x =>
     simp only [State.exec] at h
+    rw [transferFromTx_eq hg] at h
+    simp only [State.transferFromRef] at h
     split at h
     · cases h
     · split at h
